@@ -23,6 +23,11 @@ Go ↔ model
   `IsStatusPaused/IsAvailable` read the `Paused` / `Available` status conditions (status `True`,
   **observedGeneration is not consulted**), `GetPausedByParent` = Paused ∧ annotation.
 
+* `metadata.deletionTimestamp` of a listed ObjectSet ↦ `Rev.terminating`.  No line of the pass reads
+  it: a revision deleted in an earlier round whose teardown has not finished is listed, sorted,
+  counted in `len(previousObjectSets)` and sent `Delete` again like any other.  Multi-round
+  histories (prune, revision still terminating, prune again) are `Pko.Model.ArchiveHist`.
+
 The output of a pass is the ordered list of client writes it issues (`Write`) plus whether the pass
 returned an error.  Nothing else of the pass is observable to the API.  The functions are plain
 functions of the listed revisions, so part (b) (whole-system schedules) can call `osr` as the
@@ -58,6 +63,12 @@ structure Rev where
   objects : List Key
   /-- annotation `package-operator.run/hash` equals the deployment's `status.templateHash`. -/
   hashMatch : Bool
+  /-- `metadata.deletionTimestamp` is set: the ObjectSet was deleted in an earlier round (by history
+  pruning or by anybody else), its teardown has not finished, a finalizer keeps it in the API and
+  it is **still listed**.  No function of the pass reads it: `garbageCollectRevisions` counts a
+  terminating revision in `len(previousObjectSets)`, sends `Delete` to it again and decrements
+  `numToDelete` for it like for any other revision. -/
+  terminating : Bool := false
   deriving DecidableEq, Repr, Inhabited
 
 def Rev.archived (r : Rev) : Bool := r.lc == .archived      -- IsArchived
@@ -147,7 +158,8 @@ def scan : List Rev → List Write × List Rev
         let r := scan rest
         (h.1 ++ r.1, h.2 ++ r.2)
 
-/-- The loop of `garbageCollectRevisions` (l.236-245). -/
+/-- The loop of `garbageCollectRevisions` (l.236-245).  Every visited revision is sent a `Delete` and
+counted, whether or not it is already terminating (`p.terminating` is not consulted). -/
 def gcLoop : Int → List Rev → List Write
   | _, [] => []
   | n, p :: ps => if n ≤ 0 then [] else .delete p.id :: gcLoop (n - 1) ps
